@@ -92,6 +92,7 @@ type callRec struct {
 }
 
 type world struct {
+	closeTimeout        time.Duration
 	pendingKind         string
 	followupFaults      int
 	connectedAtFollowup bool
@@ -263,6 +264,16 @@ func (w *world) timed(name string, bound time.Duration, followup bool, f func(ct
 	return r
 }
 
+// timedBackground: the call gets a context without deadline; bound is what else governs it (the stream's close timeout).
+func (w *world) timedBackground(name string, bound time.Duration, f func(ctx context.Context) error) *callRec {
+	r := &callRec{name: name, start: vsched.Now(), bound: bound}
+	w.calls = append(w.calls, r)
+	r.err = f(vcontext.Background())
+	r.end = vsched.Now()
+	r.done = true
+	return r
+}
+
 func (w *world) main() {
 	if err := w.Connect(w.script()); err != nil {
 		return
@@ -283,6 +294,7 @@ func (w *world) main() {
 		if api == "upclose" && vsched.Choose("close-timeout-longer-than-context", 2) == 1 {
 			ct = 20 * time.Second
 		}
+		w.closeTimeout = ct
 		w.up, _ = w.OpenUp(sctx, "u0", iscp.WithUpstreamFlushPolicyNone(), iscp.WithUpstreamQoS(message.QoSReliable), iscp.WithUpstreamCloseTimeout(ct))
 	}
 	if needDown {
@@ -451,7 +463,12 @@ func (w *world) main() {
 			return err
 		})
 	case "upclose":
-		w.timed("Upstream.Close", callTimeout, false, func(ctx context.Context) error { return w.up.U.Close(ctx) })
+		if vsched.Choose("close-without-deadline", 2) == 1 {
+			// Close(context.Background()): the stream's close timeout is the bound, once for the drain and once for the close exchange
+			w.timedBackground("Upstream.Close(background)", 2*w.closeTimeout, func(ctx context.Context) error { return w.up.U.Close(ctx) })
+		} else {
+			w.timed("Upstream.Close", callTimeout, false, func(ctx context.Context) error { return w.up.U.Close(ctx) })
+		}
 	case "downclose-flood":
 		w.timed("Downstream.Close", callTimeout, false, func(ctx context.Context) error { return w.down.D.Close(ctx) })
 		if c := w.B.Live(); c != nil && len(w.B.Downs) > 0 {
